@@ -289,6 +289,58 @@ the call `two(a,b)` (its out-edges carry two different indices), so its returns 
 the graph also violates in/out index consistency (C17 `inv_index`). -/
 example : retOk Gtuple 2 0 = false ∧ tupleConsistent Gtuple = false := by decide
 
+/-- F17. `p, q := two(src1(), src2()); u := id(p); v := id(q); sink(u + v)`: in/out indices are
+consistent here, yet the call `two(..)` has ONE `seen` key for both components: it is expanded for
+the index of the argument that reaches it first, the other visit is pruned. -/
+def Gcollide : LGraph :=
+  { nodes := #[
+      { kind := .arg, graph := 0, parent := 1, index := 1, ins := [(2, 0), (3, 0)] },                 -- 0 sink(u+v)
+      { kind := .call, graph := 0, args := [0], calleeGraph := some 5, isPoint := true },             -- 1
+      { kind := .call, graph := 0, args := [4], calleeGraph := some 1, calleeParam := [some 6], rets := [7],
+        outs := [(0, 0)], siteKey := 1 },                                                             -- 2 id(p)
+      { kind := .call, graph := 0, args := [5], calleeGraph := some 1, calleeParam := [some 6], rets := [7],
+        outs := [(0, 0)], siteKey := 2 },                                                             -- 3 id(q)
+      { kind := .arg, graph := 0, parent := 2, index := 0, ins := [(8, 0)] },                         -- 4
+      { kind := .arg, graph := 0, parent := 3, index := 0, ins := [(8, 1)] },                         -- 5
+      { kind := .param, graph := 1, index := 0 },                                                     -- 6 x of id
+      { kind := .ret, graph := 1, index := 0, ins := [(6, -1)] },                                     -- 7 id.return
+      { kind := .call, graph := 0, args := [9, 10], calleeGraph := some 2, calleeParam := [some 11, some 12],
+        rets := [13, 14], outs := [(4, 0), (5, 1)], siteKey := 3 },                                   -- 8 two(..)
+      { kind := .arg, graph := 0, parent := 8, index := 0, ins := [(15, 0)] },                        -- 9
+      { kind := .arg, graph := 0, parent := 8, index := 1, ins := [(16, 0)] },                        -- 10
+      { kind := .param, graph := 2, index := 0 },                                                     -- 11 a
+      { kind := .param, graph := 2, index := 1 },                                                     -- 12 b
+      { kind := .ret, graph := 2, index := 0, ins := [(11, -1)] },                                    -- 13 two.return.0
+      { kind := .ret, graph := 2, index := 1, ins := [(12, -1)] },                                    -- 14 two.return.1
+      { kind := .call, graph := 0, calleeGraph := some 3, rets := [17], outs := [(9, 0)], siteKey := 4 },  -- 15 src1()
+      { kind := .call, graph := 0, calleeGraph := some 4, rets := [18], outs := [(10, 0)], siteKey := 5 }, -- 16 src2()
+      { kind := .ret, graph := 3, index := 0 },                                                       -- 17
+      { kind := .ret, graph := 4, index := 0 } ],                                                     -- 18
+    graphs := #[ {}, { callsites := [2, 3] }, { callsites := [8] }, { callsites := [15] }, { callsites := [16] }, {} ] }
+
+def collideChain : List Nat := [17, 15, 9, 11, 13, 8, 4, 6, 7, 2, 0]
+
+theorem collide_chain_valid : TraceWF (LinkedO Gcollide) 0 collideChain := by
+  refine ⟨by decide, ?_⟩
+  have L : ∀ a b, linkedB Gcollide a b = true → Linked Gcollide a b := fun a b => linked_of_linkedB
+  refine ⟨⟨L 15 17 (by decide), fun _ _ => Or.inr ⟨9, by decide⟩⟩, ⟨L 9 15 (by decide), fun h => by cases h⟩,
+    ⟨L 11 9 (by decide), fun h => by cases h⟩, ⟨L 13 11 (by decide), fun h => by cases h⟩,
+    ⟨L 8 13 (by decide), fun _ _ => Or.inr ⟨4, by decide⟩⟩, ⟨L 4 8 (by decide), fun h => by cases h⟩,
+    ⟨L 6 4 (by decide), fun h => by cases h⟩, ⟨L 7 6 (by decide), fun h => by cases h⟩,
+    ⟨L 2 7 (by decide), fun _ _ => Or.inr ⟨0, by decide⟩⟩, ⟨L 0 2 (by decide), fun h => by cases h⟩, trivial⟩
+
+theorem collide_run : (run Gcollide {} idOrder 100 0).traces = [[18, 16, 10, 12, 14, 8, 5, 6, 7, 3, 0], [4, 6, 7, 2, 0]] ∧
+    (run Gcollide {} idOrder 100 0).finished = true := by decide
+
+/-- `BackCompleteFull` fails even on a graph whose in/out indices are consistent (F17). -/
+theorem back_complete_false_consistent : tupleConsistent Gcollide = true ∧ ¬ BackCompleteFull Gcollide {} := by
+  refine ⟨by decide, ?_⟩
+  intro h
+  obtain ⟨t', ht', hm⟩ := h idOrder (fun _ _ _ => Iff.rfl) 100 0 collide_run.2 collideChain collide_chain_valid 15 (by decide)
+  rw [collide_run.1] at ht'
+  simp only [List.mem_cons, List.not_mem_nil, or_false] at ht'
+  rcases ht' with rfl | rfl <;> revert hm <;> decide
+
 /-- Defer/Go: a deferred call to a backtrace point is not an entry point. -/
 def Gdefer : LGraph :=
   { nodes := #[
